@@ -40,8 +40,12 @@ def refOfSExp : SExp → Option FunRef
   | .list [.atom "host", n, b] => do pure (.host (← decStr n) (← behOfSExp b))
   | _ => none
 
+/-- NaN payloads are not observable in yae; both sides send NaN as one bit pattern -/
+def encFloatC (v : Float) : SExp :=
+  if v.isNaN then .atom "#7ff8000000000001" else encBits v.toBits
+
 partial def valToSExp : Val → SExp
-  | .num v => .list [.atom "num", encBits v.toBits]
+  | .num v => .list [.atom "num", encFloatC v]
   | .str v => .list [.atom "str", encStr v]
   | .bool v => .list [.atom "bool", encBool v]
   | .time t => .list [.atom "time", encInt t.sec, encNat t.nsec, encInt t.offset, encStr t.zone]
